@@ -884,6 +884,17 @@ def gt_gateexact(ctx: Ctx) -> RuleResult:
     widening = ("minimal_induced_subgraph", "ancestors", "ancestors_of_iter", "descendants", "multiple_nodes_successors", "dfs_tree", "bfs_tree")
     derived = [n for n in iter_own_nodes(gate.node) if isinstance(n, ast.Call) and isinstance(n.func, ast.Attribute)
                and n.func.attr in ("subgraph", "induced_subgraph") + widening]
+    grows = [n for n in iter_own_nodes(gate.node) if isinstance(n, ast.Call) and isinstance(n.func, ast.Attribute)
+             and n.func.attr in ("add_edges_from", "add_edge", "add_nodes_from", "add_node", "add_weighted_edges_from", "update")
+             and not (isinstance(n.func.value, ast.Attribute) and n.func.value.attr in ("tag", "debug", "setup", "compound_priority"))]
+    for c in grows:
+        r.ob(False, {"gate grows its result with": norm_src(c)[:100]})
+        r.violate(f"DiGraphEx.extend_graph_with_debug_nodes: the result is grown with {c.func.attr}", gate.loc(c),
+                  "adding an edge adds both its end points: the incoming edges of the selection's own leaves bring their unselected "
+                  "predecessors into the graph (a root_nodes selection then runs nodes outside it, and differs between the two settings of "
+                  "RUN_DEBUG_NODES)", norm_src(c)[:120])
+    if grows:
+        return r
     r.require(len(derived) >= 1, "gate: derivation of the returned graph not found")
     for c in derived:
         ok = c.func.attr in ("subgraph", "induced_subgraph")
